@@ -87,13 +87,19 @@ def random_token(rng):
     return s
 
 
-def random_rid(rng):
+def random_rid(rng, allow_long=True):
     low = "abcz019-"
     def name(first, n):
         return rng.choice(first) + "".join(rng.choice(low) for _ in range(rng.below(n)))
     inst = "" if rng.chance(1, 3) else name("abz019", 6)
     loc = "".join(rng.choice("abzABZ019_.-") for _ in range(1 + rng.below(30)))
-    return "ri.%s.%s.%s.%s" % (name("abz", 8), inst, name("abz", 8), loc)
+    svc, typ = name("abz", 8), name("abz", 8)
+    if allow_long and rng.chance(1, 40):
+        # one component far longer than any 16-bit offset
+        long = "q" * (66000 + rng.below(500))
+        which = rng.below(3)
+        svc, inst, typ = (svc + long if which == 0 else svc), (inst + long if which == 1 else inst), (typ + long if which == 2 else typ)
+    return "ri.%s.%s.%s.%s" % (svc, inst, typ, loc)
 
 
 def run(tier, seed):
@@ -150,7 +156,7 @@ def run(tier, seed):
             s = random_token(rng)
             mode = "token"
         else:
-            s = random_rid(rng)
+            s = random_rid(rng, allow_long=(k < 2400))      # a few dozen very long ones per run
             mode = "rid"
         for _ in range(rng.below(3)):
             s = mutate(rng, s)
@@ -169,6 +175,8 @@ def run(tier, seed):
             got = judge(mode, list(s.encode()), None, want, obs, out, {"mode": mode, "s": list(s.encode())})
             if got is None:
                 continue
+            if len(s) > 400:
+                continue            # judged above by the grammar oracle; far too long a byte sequence for TLC to walk in the trace spec
             parts = obs["paths"].get("components") or []
             f.write(json.dumps({"ev": mode, "s": list(s.encode()), "accepted": got, "parts": parts}) + "\n")
             lines.append((mode, s))
